@@ -88,3 +88,54 @@ func verifIsolationScript(ver uint8, nops int) {
 func VerifH_C04_api_isolation_v2() { verifIsolationScript(2, 2) }
 func VerifH_C04_api_isolation_v0() { verifIsolationScript(0, 1) }
 func VerifH_C04_api_isolation3_thorough() { verifIsolationScript(2, 3) }
+
+// a variable-length dataset whose single element needs its own, larger heap collection (lengths around and above the
+// 4 KiB collection size), then a sibling created and written in the same session: both read back as written
+func VerifH_C04_api_isolation_vlen_big() {
+	vrt.LoopBound(40000)
+	lens := []int{16, 4048, 4049, 4100, 6000, 9000}
+	L := lens[vrt.Choice(len(lens))]
+	big := make([]byte, L)
+	for i := range big {
+		big[i] = 'a' + byte(i%23)
+	}
+	big[0], big[L-1] = 'A'+vrt.U8()%26, 'A'+vrt.U8()%26
+	fw, err := CreateForWrite("c04v.h5", CreateTruncate)
+	vrt.AssertNoErr(err, "create-ok")
+	x, err := fw.CreateDataset("/x", VLenString, []uint64{1})
+	vrt.AssertNoErr(err, "create-x-ok")
+	vrt.AssertNoErr(x.Write([]string{string(big)}), "write-x-ok")
+	y, err := fw.CreateDataset("/y", Int32, []uint64{2})
+	vrt.AssertNoErr(err, "create-y-ok")
+	dataY := [2]int32{vrt.I32(), vrt.I32()}
+	vrt.AssertNoErr(y.Write(dataY[:]), "write-y-ok")
+	if vrt.Bool() {
+		vrt.AssertNoErr(y.WriteAttribute("k", int32(5)), "attr-y-ok")
+	}
+	vrt.AssertNoErr(fw.Close(), "close-ok")
+	f, err := Open("c04v.h5")
+	vrt.AssertNoErr(err, "file-still-opens")
+	if err != nil {
+		return
+	}
+	dy := verifFindDataset(f, "/y")
+	vrt.Assert(dy != nil, "b-present")
+	if dy != nil {
+		got, err := dy.Read()
+		vrt.AssertNoErr(err, "b-read-ok")
+		if err == nil {
+			vrt.Assert(len(got) == 2 && got[0] == float64(dataY[0]) && got[1] == float64(dataY[1]), "b-data-as-model")
+		}
+	}
+	dx := verifFindDataset(f, "/x")
+	vrt.Assert(dx != nil, "a-present")
+	if dx != nil {
+		elems, err := verifVLenElements(dx, 1)
+		vrt.AssertNoErr(err, "vlen-elements-resolve")
+		if err == nil {
+			vrt.Assert(string(elems[0]) == string(big), "a-data-as-model")
+		}
+	}
+	vrt.Covered("isolation-compared")
+	_ = f.Close()
+}
